@@ -109,9 +109,25 @@ def string_key_sites(fx):
                     yield f, bi, s
 
 
-def canonicalisers(fx):
-    """functions that construct both PropertyKey::Index and PropertyKey::String and perform a numeric test"""
+def index_helpers(fx):
+    """local functions that decide whether a text is an index: they return (an Option of) u32 and parse the text as u32 themselves
+    (`fn canonical_index(name: &str) -> Option<u32>` shared by several constructors)"""
     out = set()
+    for f in fx.fns.values():
+        if f.derived or f.closure or not f.sig or "u32" not in fx.tys(f.sig[-1]):
+            continue
+        for bi, t in f.calls():
+            d = t[1].get("d", "")
+            if d.endswith("::parse") and "u32" in [fx.tys(x) for x in t[1].get("targs", [])]:
+                out.add(f.path)
+    return out
+
+
+def canonicalisers(fx):
+    """functions that construct both PropertyKey::Index and PropertyKey::String and perform a numeric test (themselves or through an
+    index helper)"""
+    out = set()
+    helpers = index_helpers(fx)
     for f in fx.fns.values():
         vs = set()
         for bl in f.blocks:
@@ -122,7 +138,7 @@ def canonicalisers(fx):
             numeric = False
             for bi, t in f.calls():
                 d = t[1].get("d", "")
-                if d.endswith(("::parse", "str::<impl str>::parse")) or "parse::<u32>" in d or d.endswith("math::fract"):
+                if d.endswith(("::parse", "str::<impl str>::parse")) or "parse::<u32>" in d or d.endswith("math::fract") or d in helpers:
                     numeric = True
             for bl in f.blocks:
                 for s in bl["s"]:
@@ -266,10 +282,16 @@ def run(tier):
 
     # R1b: the text canonicalisers agree on what a canonical index is: parse as u32 AND print back to the same text
     ck.rule("R1b.canonicaliser-roundtrip", "every canonicaliser that parses text as u32 also compares the printed-back index with the text (leading zeros, '+1', ' 1' are not indices)", floor=4)
+    helpers9 = index_helpers(fx)
     for p in sorted(canon):
         f = fx.fns[p]
         parses = prints = compares = False
-        for g in fx.body_group(f):
+        group = list(fx.body_group(f))
+        for g in list(group):
+            for bi, t in g.calls():
+                if t[1].get("d") in helpers9 and fx.fns[t[1]["d"]] not in group:
+                    group.extend(fx.body_group(fx.fns[t[1]["d"]]))
+        for g in group:
             for bi, t in g.calls():
                 d = t[1].get("d", "")
                 targs = [fx.tys(x) for x in t[1].get("targs", [])]
